@@ -9,6 +9,7 @@ cast votes in a ranked election. [#meekm]_
 """
 
 from decimal import Decimal
+from fractions import Fraction
 from numbers import Number
 from typing import List, Dict, Tuple, Set, Iterable, Optional
 
@@ -180,7 +181,10 @@ def _parse_body(blt_lines: Iterable[str],
                 raise ValueError(f'ballot weight <1: {line!r}')
             if ballot not in ballots:
                 ballots[ballot] = 0
-            ballots[ballot] += weight
+            try:
+                ballots[ballot] += weight
+            except TypeError:    # Decimal and Fraction do not mix
+                ballots[ballot] = Fraction(ballots[ballot]) + Fraction(weight)
             ballots_encountered = True
     raise BLTParseError('incomplete BLT file:'
                         ' EOF before ballot list terminator')
@@ -243,6 +247,21 @@ def _parse_ballot(nums: List[Number]) -> Tuple[Number, Tuple[int, ...]]:
     return nums[0], tuple(nums[1:])
 
 
+def _parse_weight(numstr: str) -> Number:
+    # Weights are written by str(): Decimals in decimal notation, Fractions
+    # as numerator/denominator. Anything else (including NaN and infinities,
+    # which cannot be compared or counted) is a malformed file.
+    try:
+        if '/' in numstr:
+            return Fraction(numstr)
+        weight = Decimal(numstr)
+    except (ArithmeticError, ValueError) as err:
+        raise BLTParseError(f'invalid BLT number: {numstr!r}') from err
+    if not weight.is_finite():
+        raise BLTParseError(f'invalid BLT number: {numstr!r}')
+    return weight
+
+
 def _parse_numline(blt_line: str,
                    allow_first_decimal: bool = False,
                    ) -> List[Number]:
@@ -256,7 +275,7 @@ def _parse_numline(blt_line: str,
         if numstr.isdigit():
             nums.append(int(numstr))
         elif i == 0 and allow_first_decimal:
-            nums.append(Decimal(numstr))
+            nums.append(_parse_weight(numstr))
         else:
             raise BLTParseError(f'invalid BLT numberline item {i}: {numstr!r}'
                                 f'(first decimal item'
